@@ -40,43 +40,47 @@ def trace_validate(module, records, cfg="SPECIFICATION TSpec\nCHECK_DEADLOCK FAL
   return v, t
 
 
-def _singleton_proof(run):
-  """any number of threads: SingletonProof.tla states an inductive invariant of the locked protocol and proves (TLAPS) that it implies
-  OneInstance and SameForAll.  TLC checks that the invariant holds on the 2- and 3-thread instances (so the proof does not rest on
-  an invariant that is false); tlapm re-checks the proof.  A missing or timed-out prover is noted, a failed obligation is a failure
-  of the machinery (the specification, not the code, would be wrong)."""
+def _tlaps_proof(run, name, base, cfgs, claim):
+  """a TLAPS proof that removes the bound of a TLC run: <name>Inv.tla states an inductive invariant of the protocol in <base>.tla and
+  <name>Proof.tla proves that it is inductive and implies the properties.  TLC checks that the invariant holds on small instances (so
+  the proof does not rest on an invariant that is false); tlapm re-checks the proof.  A missing or timed-out prover is noted, a failed
+  obligation is a failure of the machinery (the specification, not the code, would be wrong)."""
   import shutil, subprocess, re
-  for threads in (['"t1"', '"t2"'], ['"t1"', '"t2"', '"t3"']):
-    cfg = "SPECIFICATION Spec\nCONSTANTS Threads = {%s}\nVariant = \"locked\"\nINVARIANT Inv\n" % ", ".join(threads)
-    r = tlc.run("SingletonInv.tla", cfg, workers=4, timeout=600)
-    tlc.need_ok(r, "SingletonProof")
+  for cfg in cfgs:
+    r = tlc.run(name + "Inv.tla", cfg + "INVARIANT Inv\n", workers=4, timeout=600)
+    tlc.need_ok(r, name + "Inv")
     if r.violated:
-      raise common.MachineryError("the inductive invariant of SingletonProof.tla is violated on %d threads: %s" % (len(threads), r.violated))
+      raise common.MachineryError("the inductive invariant of %sInv.tla is violated: %s" % (name, r.violated))
+  small = "%sProof: Inv holds on the small instances (TLC)" % name
   exe = shutil.which("tlapm")
   if exe is None:
-    run.add(tlc_runs=["SingletonProof: Inv holds on 2 and 3 threads (TLC); tlapm not found, the proof was not re-checked in this run"])
+    run.add(tlc_runs=[small + "; tlapm not found, the proof was not re-checked in this run"])
     return
-  wd = os.path.join(common.work_dir(), "tlaps_%d" % os.getpid())
+  wd = os.path.join(common.work_dir(), "tlaps_%s_%d" % (name, os.getpid()))
   os.makedirs(wd, exist_ok=True)
-  for f in ("Singleton.tla", "SingletonInv.tla", "SingletonProof.tla"):
+  for f in (base + ".tla", name + "Inv.tla", name + "Proof.tla"):
     shutil.copy(os.path.join(common.VERIF, "spec", f), wd)
   try:
-    out = subprocess.run([exe, "--threads", "8", "SingletonProof.tla"], cwd=wd, capture_output=True, text=True, timeout=900)
+    out = subprocess.run([exe, "--threads", "8", name + "Proof.tla"], cwd=wd, capture_output=True, text=True, timeout=1200)
     text = out.stdout + out.stderr
   except subprocess.TimeoutExpired:
-    run.add(tlc_runs=["SingletonProof: Inv holds on 2 and 3 threads (TLC); tlapm timed out, the proof was not re-checked in this run"])
+    run.add(tlc_runs=[small + "; tlapm timed out, the proof was not re-checked in this run"])
     return
   finally:
     shutil.rmtree(os.path.join(wd, ".tlacache"), ignore_errors=True)
   m = re.search(r"All (\d+) obligations? proved", text)
   if m:
-    run.add(tlc_runs=["SingletonProof: TLAPS proved all %s obligations of Spec => [](OneInstance /\\ SameForAll) for any set of threads "
-                      "(inductive invariant Inv, also checked by TLC on 2 and 3 threads)" % m.group(1)],
-            proof_obligations_proved=int(m.group(1)))
-  elif re.search(r"obligations? failed|\bfailed\b", text):
-    raise common.MachineryError("tlapm could not prove SingletonProof.tla:\n" + text[-1500:])
+    run.add(tlc_runs=["%sProof: TLAPS proved all %s obligations of %s (inductive invariant Inv, also checked by TLC on small instances)" % (
+      name, m.group(1), claim)], proof_obligations_proved=int(m.group(1)))
+  elif re.search(r"obligations? failed", text):
+    raise common.MachineryError("tlapm could not prove %sProof.tla:\n%s" % (name, text[-1500:]))
   else:
-    run.add(tlc_runs=["SingletonProof: Inv holds on 2 and 3 threads (TLC); tlapm gave no verdict (%s), the proof was not re-checked in this run" % text[-200:].strip()])
+    run.add(tlc_runs=[small + "; tlapm gave no verdict (%s), the proof was not re-checked in this run" % text[-200:].strip()])
+
+
+def _singleton_proof(run):
+  cfgs = ["SPECIFICATION Spec\nCONSTANTS Threads = {%s}\nVariant = \"locked\"\n" % ts for ts in ('"t1", "t2"', '"t1", "t2", "t3"')]
+  _tlaps_proof(run, "Singleton", "Singleton", cfgs, "Spec => [](OneInstance /\\ SameForAll) for any set of threads")
 
 
 def c30(tier):
@@ -181,6 +185,8 @@ def c25(tier):
   if r.violated:
     raise common.MachineryError("Signals.tla (locked) violates %s" % r.violated)
   run.add(states=r.distinct, transitions=r.generated, tlc_runs=["Signals 2 threads x 2 names, locked: %d distinct states (deadlock-free); Injective, Positive, Stable hold" % r.distinct])
+  _tlaps_proof(run, "Signals", "Signals", ["SPECIFICATION Spec\nCONSTANTS Threads = {\"t1\", \"t2\"}\nProg <- ProgDef\nVariant = \"locked\"\nBuiltins = 10\n"],
+               "Spec => [](Injective /\\ Positive /\\ Stable /\\ SeenInjective) for any set of threads, any programs of registrations and any number of built-ins")
   n = 2000 if tier == "quick" else 40000
   chunk = max(1, (n + 63) // 64)
   pairs = [([o1, n1], [o2, n2]) for o1 in ("append", "attr", "ev_name") for o2 in ("append", "attr", "ev_name", "ev_num", "name_for")
